@@ -59,6 +59,14 @@ def gen(tier, seed, shard, nshards):
         yield "embedded-pdag", dict(c, P=9 + c["code"] % 5)
     for c in _gc.iter_dag_cases((3, 4), shard, nshards):
         yield "embedded-dag", dict(c, P=9 + c["code3"] % 5)
+
+    sidx = 0
+    for pp in (6, 7, 8, 9, 10):
+        for name in sorted(gmat.named_shapes(pp)):
+            for rep in range(2):
+                if sidx % nshards == shard:
+                    yield "shape-dag", {"p": pp, "shape": name, "rep": rep}
+                sidx += 1
     for k in range(n["weighted"]):
         if k % nshards == shard:
             rng = util.rng_for("C07", seed, "w", k)
@@ -87,6 +95,16 @@ def _check_all_dags(U, out, family, case, rec, key):
         rec.exception_violation("C07:all_dags-exception", family, case, "all_dags raised %s" % type(e).__name__, e)
         return want
     rec.count("all_dags:empty" if not want else ("all_dags:multi" if len(want) > 1 else "all_dags:single"))
+    if (sum(out) + len(out)) % 8 == 3:
+        # a sufficient max_combinations must not change the answer
+        try:
+            l2, g2 = _gc.result_set(U.all_dags(gmat.to_np(out), max_combinations=2 ** und))
+            rec.count("keyword:max_combinations")
+            if g2 != got or len(l2) != len(lst):
+                rec.violation("C07:all_dags-max_combinations-changes-result", family, case,
+                              "all_dags(P, max_combinations=2**%d) returns %d graphs, without the argument %d" % (und, len(l2), len(lst)), pdag=_gc.rows(out))
+        except Exception as e:
+            rec.exception_violation("C07:all_dags-max_combinations-exception", family, case, "all_dags raised with a sufficient max_combinations", e)
     if want and (sum(out) + len(out)) % 4 == 0:
         _gc.repeat_after_overwrite(rec, family, case, "C07", "all_dags", U.all_dags, (gmat.to_np(out),), res)
     rec.max("all_dags:max-extensions", len(want))
@@ -141,6 +159,9 @@ def _check_mec(U, out, family, case, rec, key, A=None, chain_variants=(True,)):
     rec.max("mec:max-class-size", len(want))
     if A is None:
         A = gmat.to_np(out)
+    if chain_variants == (True,) and (sum(out) + len(out)) % 6 == 2:
+        chain_variants = (True, False)      # check_chain=False must give the same class for every graph
+        rec.count("keyword:check_chain=False")
     for cc in chain_variants:
         try:
             res = U.mec(A, check_chain=cc) if cc is not True else U.mec(A)
@@ -210,6 +231,16 @@ def judge(family, case, rec):
     elif family == "sampled-dag":
         out = list(case["masks"])
         _check_mec(U, out, family, case, rec, None)
+    elif family == "shape-dag":
+        out0 = gmat.named_shapes(case["p"])[case["shape"]]
+        if G.n_edges(out0) > 12:
+            return
+        out = gmat.relabel(out0, util.rng_for("shape", case["p"], case["shape"], case["rep"])) if case["rep"] else list(out0)
+        rec.count("shapes:" + case["shape"])
+        _check_mec(U, out, family, case, rec, ("shape", case["p"], case["shape"], case["rep"]), chain_variants=(True, False))
+        # every member's CPDAG (as a PDAG) has exactly the class as extensions
+        ess = G.union_graph(G.mec_of(out), len(out))
+        _check_all_dags(U, ess, family, dict(case, essential=True), rec, ("shape-ess", case["p"], case["shape"], case["rep"]))
     elif family == "chain":
         p = case["p"]
         out = [(1 << (i + 1)) if i + 1 < p else 0 for i in range(p)]
